@@ -34,6 +34,10 @@ def shards(tier):
     for f in FIN:
         sh.append({"name": f + "-small", "family": f, "mode": "finite", "minN": 4, "maxN": 7, "examples": 250 if q else 2500, "budget_s": 100 if q else 2400})
         sh.append({"name": f + "-fewvalues", "family": f, "mode": "finite-few", "minN": 6, "maxN": 10 if q else 12, "examples": 80 if q else 800, "budget_s": 100 if q else 2400})
+    # larger populations that are still cheap to enumerate: one dominant value plus 1..3 other cards
+    for f in FIN:
+        sh.append({"name": f + "-skewed", "family": f, "mode": "skewed", "minN": 8, "maxN": 24 if q else 40, "examples": 220 if q else 1500,
+                   "budget_s": 100 if q else 2400})
     for f in IID:
         sh.append({"name": f, "family": f, "mode": "iid", "maxL": 8 if q else 9, "examples": 200 if q else 2000, "budget_s": 100 if q else 2400})
     return sh
@@ -133,6 +137,37 @@ def strategy(shard):
         L = draw(st.integers(4, shard["maxL"]))
         return {"cfg": cfg, "atoms": [float(a) for a, _ in keep], "probs": [f"{p.numerator}/{p.denominator}" for _, p in keep], "L": L}
 
+    @st.composite
+    def skewed(draw):
+        # N-k cards of one (usually high) value and k in {1,2,3} other cards; t just above the exact mean, so the
+        # population is null with almost no slack; few distinct arrangements (<= C(N,3)*6) although N is large
+        if fam == "alpha-optcomp":
+            u, _ = draw(_ut(fam))
+        else:
+            u = draw(st.sampled_from([1.0, 1.0, 1.0, 2.0, 1.5]))
+        N = draw(st.integers(shard["minN"], shard["maxN"]))
+        k = draw(st.integers(1, 3))
+        grid = [j / 8 for j in range(0, int(u * 8) + 1)]
+        hi = draw(st.sampled_from([u, u, u, u * 0.75, u * 0.5]))
+        lows = [draw(st.sampled_from([0.0, 0.0, 0.0] + grid)) for _ in range(k)]
+        pop = [hi] * (N - k) + lows
+        mean = sum(Fraction(v) for v in pop) / N
+        if fam == "alpha-optcomp":
+            t = 0.5
+            if mean > Fraction(1, 2):   # make it null: lower the dominant value
+                hi = draw(st.sampled_from([g for g in grid if g <= 0.5]))
+                pop = [hi] * (N - k) + [min(v, 0.5) for v in lows]
+        else:
+            t = float(mean) * (1 + 2e-6) + 1e-9
+            if not (0 < t < u * (1 - 1e-3)):
+                t = u / 2
+                pop = [min(v, t) for v in pop]
+        cfg = draw(nonneg.config(fam, ut=(u, t), min_N=N, max_N=N, dyadic_g=True))
+        cfg["N"] = N
+        return {"cfg": cfg, "pop": [float(v) for v in pop], "regime": "skewed"}
+
+    if shard["mode"] == "skewed":
+        return skewed()
     return iid() if shard["mode"] == "iid" else finite()
 
 
